@@ -11,7 +11,8 @@ import (
 // compared BYTE FOR BYTE with the byte-level model (coq/model/ThriftEditBytes.v: walk, three-slice splice, field header /
 // key bytes of Path.ToRaw, in-place count patch) run on the previous buffer.
 // case 403: type, bytes, nops, (kind 1 set / 2 unset, path, sub type, sub bytes, err 0 nil / 1 error / 3 panic, exist, bytes after,
-// flags: bit0 Value API (descriptor attached), bit1 every field step of the path is declared in the IDL)*
+// flags: bit0 Value API (descriptor attached), bit1 every field step of the path is declared in the IDL,
+// bits 2-3 callback of a ReplaceByPath op (kind 5): 0 constant node, 1 identity, 2 error node)*
 func init() {
 	base := generators["C04"]
 	generators["C04"] = func(r *rng, n int) {
@@ -126,6 +127,7 @@ func genC04Bytes(r *rng, n int) {
 	for hi := 0; hi < nh; hi++ {
 		g := newTgen(r.fork())
 		g.maxDepth = 3
+		g.allowReq = true
 		var root *Ty
 		var val *Val
 		wide := r.chance(12)
@@ -270,10 +272,30 @@ func genC04Bytes(r *rng, n int) {
 			sub := g.genValue(subT, 2)
 			sb := sub.encode(nil)
 			gp := toPath(p)
+			// ReplaceByPath instead of SetByPath, on present and absent targets alike: the callback returns a node built
+			// without looking at its argument (mode 0), its argument (1), or an error node (2)
+			mode := 0
+			if kind == 1 && r.chance(25) {
+				kind = 5
+				mode = []int{0, 0, 0, 1, 2}[r.intn(5)]
+			}
+			cbf := func(n generic.Node) generic.Node {
+				switch mode {
+				case 1:
+					return n
+				case 2:
+					return generic.NewNode(thrift.STRUCT, []byte{0}).Field(1) // a not-found error node
+				}
+				return generic.NewNode(subT.K, append([]byte(nil), sb...))
+			}
 			var exist bool
 			var e error
 			ok, _ := noPanic(func() {
 				switch {
+				case typed && kind == 5:
+					exist, e = value.ReplaceByPath(cbf, gp...) // Node's method through the embedded node
+				case kind == 5:
+					exist, e = node.ReplaceByPath(cbf, gp...)
 				case typed && kind == 1:
 					exist, e = value.SetByPath(generic.Value{Node: generic.NewNode(subT.K, append([]byte(nil), sb...)), Desc: descFor(desc, p)}, gp...)
 				case typed:
@@ -296,6 +318,7 @@ func genC04Bytes(r *rng, n int) {
 				res = value.Raw()
 				flags |= 1
 			}
+			flags |= mode << 2
 			ops = append(ops, fi(kind))
 			ops = append(ops, pathFields(p)...)
 			ops = append(ops, fi(int(subT.K)), fx(sb), fi(ei), fb(exist), fx(res), fi(flags))
